@@ -33,8 +33,17 @@ SPEC = {
     "harness": "c14",
     "harness_timeout": {"quick": 900, "thorough": 6000},
     "theorems": [
-        "C14_derived_set", "C14_derived_set_counts", "C14_subtract", "C14_counter", "C14_eviction", "C14_eviction_unique",
-        "C14_eviction_pre", "C14_waitgroup_sequential",
+        "C14_derived_var", "C14_derived_var_steady", "C14_inherit",
+        "C14_derived_set", "C14_derived_set_counts", "C14_subtract", "C14_counter",
+        "C14_sorted_set", "C14_sorted_set_spec", "C14_sorted_set_members", "C14_sorted_set_absent_weight",
+        "C14_eviction", "C14_eviction_unique", "C14_eviction_pre",
+        "C14_waitgroup_sequential", "C14_waitgroup_counter", "C14_waitgroup_only_if", "C14_waitgroup",
+        "C14_deadlock_free", "C14_scripts_ranked",
+        "C14_derived_set_old_replace_witness", "C14_counter_old_unsubscribe_witness", "C14_waitgroup_old_race_witness",
+        "C14_sorted_set_inversion_witness",
+        "C14_skeleton_variable_Compute", "C14_skeleton_readableVariable_OnUpdate", "C14_skeleton_sortedSet_deleteSorted",
+        "C14_skeleton_sortedSet_addSorted", "C14_skeleton_waitGroup_Add", "C14_skeleton_waitGroup_Done",
+        "C14_skeleton_evictionState_evict", "C14_skeleton_derivedSet_inheritMutations", "C14_skeleton_callback_LockExecution",
     ],
     "trusted_base": [
         "hand-written models lean/Hive/Model/Derived*.lean of ds/reactive, tied by (1) line-by-line differential execution of the sequential models, "
